@@ -147,7 +147,7 @@ func (w *World) CheckChains(o ChainOpts) []ChainProblem {
 		if o.RequireAll && a.Key == nil && a.Csr == nil {
 			add("entity-without-key-material", "%s: %s has neither private key nor request (keyErr=%v csrErr=%v)", e.ID, e.PemPath(), a.KeyErr, a.CsrErr)
 		}
-		if a.Key != nil && !bytes.Equal(a.Key.PubBits, a.Cert.SPKIBits) && (e.Manip == nil || e.Manip.PubKey == "") {
+		if a.Key != nil && a.Pem.HasHash && !bytes.Equal(a.Key.PubBits, a.Cert.SPKIBits) && (e.Manip == nil || e.Manip.PubKey == "") {
 			add("certificate-key-mismatch", "%s: certificate public key is not the stored private key's public key", e.ID)
 		}
 		issuerCert := a.Cert
